@@ -207,7 +207,8 @@ def execute(case):
                 r = inputs[k]["root"]
                 args.append("$ROOT/" + r if spelling == "abs" else os.path.relpath(r, cwd))
             inv = {"argv": ["--color", "never"] + list(margs) + list(case["cli"]) + args, "cwd": cwd,
-                   "hashseed": case["hashseed"] if seed is None else seed, "env": env or {}}
+                   "hashseed": case["hashseed"] if seed is None else seed, "env": env or {},
+                   "plan": core.legal_perturbation(case["permseed"] // 3 + len(idx)) if len(idx) > 1 else []}
             res = core.run_inv(sc, inv)
             v.account(res, nontrivial=len(idx) > 1)
             ab = core.abnormal(res)
